@@ -508,4 +508,7 @@ def check(ctx):
     from .c11_extra import extra
 
     extra(ctx, rep)
+    from .c11_exact import exactprop
+
+    exactprop(ctx, rep)
     return rep
